@@ -428,7 +428,26 @@ def run_C15(em, impl, tabs, rng, thorough):
 
 
 def run_C16(em, impl, tabs, rng, thorough):
+    seen_label = {}  # (option, constellation, signal id) -> (label, payload) over the whole run
     blds = corpus(tabs, rng, 3 if thorough else 1, idents=list(tabs.M), maskmodes=(None, "reserved", "full"))
+    # the same signal masks under different constellations (a label must depend on constellation and id only)
+    for mask in (0x40010000, 0x60000000, 0x00000400, 0x41414141):
+        for ident in rng.sample(list(tabs.M), 14 if thorough else 7):
+            b = gen.build(tabs, ident, rng, maskmode="last")
+            if b is None:
+                continue
+            # rebuild with the chosen signal mask: DF395 is a 32-bit field; patch its bits in the payload
+            f395 = [f for f in b.fields if f[1] == "DF395"]
+            if not f395:
+                continue
+            off = f395[0][4]
+            v = int.from_bytes(b.payload, "big")
+            nb = len(b.payload) * 8
+            v = (v & ~(((1 << 32) - 1) << (nb - off - 32))) | (mask << (nb - off - 32))
+            pay = v.to_bytes(len(b.payload), "big") + bytes(40)
+            b2 = gen.Built()
+            b2.ident, b2.payload = ident, pay
+            blds.append(b2)
     others = corpus(tabs, rng, 1, idents=rng.sample([k for k in tabs.ALL if k not in tabs.M], 40 if thorough else 15))
     for b in blds + others:
         for label in (0, 1, 2, 3):
@@ -462,6 +481,11 @@ def run_C16(em, impl, tabs, rng, thorough):
                         l_ = getattr(mm, "CELLSIG_%02d" % k)
                         if lab.setdefault(g, l_) != l_:
                             em.violation("C16: signal id %d labelled inconsistently" % g, {"payload": b.payload.hex()}, {})
+                        key = (1 if mm is m1 else 2, b.ident[:3], g)
+                        prev = seen_label.setdefault(key, (l_, b.payload))
+                        if prev[0] != l_:
+                            em.violation("C16: option %d: constellation %sx signal id %d labelled %r in one message and %r in another" % (key[0], key[1], g, prev[0], l_),
+                                         {"payload": b.payload.hex(), "labelmsm": key[0], "other_payload": prev[1].hex()}, {})
     em.samples = [{"identity": b.ident, "payload": b.payload.hex()[:80]} for b in blds[:2]]
 
 
